@@ -174,6 +174,20 @@ pub fn cmp_lax_sliced(c: &mut Cmp, s: &LaxSlicedPacket, r: &RefOut) {
             _ => c.fail("link_exts", "kind", format!("extension {} is not the prescribed {}", i, rl.kind.name())),
         }
         c.eq("link_exts", "header_len", e.header_len(), rl.len);
+        // the generic payload view of an extension: what the variant itself hands out; a VLAN tag has no
+        // length field, so its payload is never incomplete
+        match (e.payload(), e) {
+            (Some(v), LaxLinkExtSlice::Vlan(x)) => {
+                let q = x.payload();
+                c.eq("link_exts", "payload()", (v.incomplete, v.ether_type, v.len_source, v.payload.as_ptr(), v.payload.len()), (false, q.ether_type, q.len_source, q.payload.as_ptr(), q.payload.len()));
+            }
+            (Some(v), LaxLinkExtSlice::Macsec(m)) => match &m.payload {
+                LaxMacsecPayloadSlice::Unmodified(q) => c.eq("link_exts", "payload()", (v.incomplete, v.ether_type, v.len_source, v.payload.as_ptr(), v.payload.len()), (q.incomplete, q.ether_type, q.len_source, q.payload.as_ptr(), q.payload.len())),
+                _ => c.fail("link_exts", "payload()", format!("extension {}: an ether payload is handed out for a modified (opaque) MACsec payload", i)),
+            },
+            (None, LaxLinkExtSlice::Macsec(m)) if !matches!(m.payload, LaxMacsecPayloadSlice::Unmodified(_)) => {}
+            (None, _) => c.fail("link_exts", "payload()", format!("extension {}: no ether payload handed out", i)),
+        }
     }
     match (&s.net, p.net) {
         (None, None) => {}
